@@ -213,4 +213,6 @@ NOT_APPLICABLE = {}
 SEED_NOTES = ("Solver-based checking of the real code: every check symbolically executes the functions of /repo's "
               "current working tree (source read at run time) and discharges the property as SMT obligations per path; "
               "bounds, stubs and what lies outside are in DESIGN.md section 3 and repeated in each evidence file. "
-              "Exit codes: 0 held / only known findings; 1 VIOLATION (replayed on the real code); 3 harness error.")
+              "Exit codes: 0 held / only known findings; 1 VIOLATION (replayed on the real code); 3 harness error. "
+              "Known findings and the record of repaired defects: known_findings.json (one open finding, C20-xml-whitespace; "
+              "12 'fixed:' records that suppress nothing).")
